@@ -49,6 +49,40 @@ def read_source(name):
         return fh.read()
 
 
+_SHADOW_PKGS = {}      # package name -> (namespace, package module) of the shadow packages loaded in this process
+
+
+class _ShadowFinder:
+    """modules of /repo/cgsmiles that are not in a property's list (a helper moved into a new file, say) are loaded on
+    demand, rewritten like the others, when a rewritten module imports them"""
+
+    @staticmethod
+    def find_spec(fullname, path=None, target=None):
+        import importlib.util
+        pkg, _, name = fullname.partition('.')
+        if pkg not in _SHADOW_PKGS or not name or '.' in name or not os.path.exists(source_path(name)):
+            return None
+
+        class _Loader:
+            @staticmethod
+            def create_module(spec):
+                ns, pkgmod = _SHADOW_PKGS[pkg]
+                src = read_source(name)
+                ns.sources[name] = src
+                m = symx.load_rewritten(fullname, source_path(name), pkg=pkg, src=src)
+                setattr(pkgmod, name, m)
+                setattr(ns, name, m)
+                return m
+
+            @staticmethod
+            def exec_module(module):
+                return None
+        return importlib.util.spec_from_loader(fullname, _Loader)
+
+
+sys.meta_path.append(_ShadowFinder)
+
+
 def load_shadow(modules=CORE, mutate=None, pkgname=PKG, extra_globals=None):
     """(Re)load the rewritten package.  ``mutate`` maps module name -> function
     (source text -> source text), used only by the sensitivity self-test."""
@@ -58,7 +92,10 @@ def load_shadow(modules=CORE, mutate=None, pkgname=PKG, extra_globals=None):
     ns = NS()
     ns.is_shadow = True
     ns.sources = {}
+    _SHADOW_PKGS[pkgname] = (ns, pkg)
     for name in modules:
+        if hasattr(ns, name) and not (mutate and name in mutate):
+            continue                      # already loaded on demand by a module that imports it
         src = read_source(name)
         if mutate and name in mutate:
             new = mutate[name](src)
